@@ -179,6 +179,27 @@ ROUND2 = {
     'C20': 'Second round: slab length as 15th coordinate plus the full product length x coupling depth x taper x velocity x ridge distance x dip (3^6); linear slab models starting above the slab surface.',
 }
 
+ROUND3 = {
+    'C01': 'Third round: 19 operations (a hydrated plate at one cartesian point with two depth arguments; two tag columns 0.03 degrees apart in the spherical world over a sloping layer top given at points) and a sixth world carrying the tian water content model.',
+    'C02': 'Third round: ninth mode (two chained models per kind in one feature).',
+    'C03': 'Third round: top and bottom surfaces listing different value points.',
+    'C04': 'Third round: spherical plume centres written beyond +180, across the date line and below -180 (a longitude offset implies the spherical world); probe depths at non-quarter fractions between cross sections.',
+    'C05': 'Third round: uniform grains (Euler angles) for all feature types, velocity / grains models with surface ranges, spherical half-space model starting below the surface.',
+    'C06': 'Third round: dip point close to the trench.',
+    'C07': 'Third round: arcs through the vertical, one-plane bodies with tip probes over the full length below the actual trench curve, 24 listed shallow thin bodies under bent traces, cartesian columns through member points in spherical worlds; each world is asked all points in a row (not alternating with its twin).',
+    'C08': 'Third round: plume rotation angles decreasing through zero with strongly elliptical sections, a dense patch of probes over the plume at non-quarter depths, robustness judged on the grains as well.',
+    'C10': 'Third round: suite lengthmodel (feature-level mass conserving model vs the uniform slab with the interpolated length).',
+    'C12': 'Third round: fourth base document (hydrated features, interpolation options); closed option strings replaced by an unsupported value must be rejected.',
+    'C13': 'Third round: all 57 model plugins with required entries only x 2 coordinate systems; 160 hydrated worlds.',
+    'C14': 'Third round: build variant sch (std::atomic inside the library hooked as scheduling points), harness world with repeated columns, TSan gwb-grid with filter options, fine chunk grid (0.04 degrees, 2 km levels, all 40 thread counts) over a sloping layer top given at points.',
+    'C15': 'Third round: fixed sizes with normalisation.',
+    'C16': 'Third round: negative depths, file names with blanks, native twin for the C++ wrapper stream on random worlds that carry a random composition model.',
+    'C17': 'Third round: rows with colliding concatenations, comma separated rows with empty fields.',
+    'C18': 'Third round: --resolution-limit, other orders of the grid file settings, inner radius 0.',
+    'C19': 'Third round: Bezier and polygon kernels in spherical coordinates (haversine brute force; polygons beyond +-180).',
+    'C20': 'Third round: model-level constants as coordinates 16-18.',
+}
+
 def main():
     props = [json.loads(l) for l in open(f'{V}/properties.jsonl')]
     hooks_commits = []
@@ -194,6 +215,7 @@ def main():
         if i in CHECKS:
             lvl, eng, tech, text, note, ref = CHECKS[i]
             if i in ROUND2: text = text + ' ' + ROUND2[i]
+            if i in ROUND3: text = text + ' ' + ROUND3[i]
             c = {
                 'property_id': i,
                 'quick_cmd': f'./check {i} --tier quick',
@@ -213,7 +235,7 @@ def main():
         'setup_cmd': './tools/setup.sh',
         'hooks': {
             'guard': 'GWB_VERIF',
-            'enable': 'tools/stage_build.sh copies /repo include/ and source/ into /verif/build/stage and compiles every file with -DGWB_VERIF (variants rel, san, tsan)',
+            'enable': 'tools/stage_build.sh copies /repo include/ and source/ into /verif/build/stage and compiles every file with -DGWB_VERIF (variants rel, san, tsan, sch; sch force-includes mc/atomic_hook.h so that std::atomic inside the library passes through the yield hook)',
             'baseline_off_cmd': './tools/baseline_off.sh',
             'source_commits': hooks_commits,
             'add_only': True,
@@ -223,7 +245,7 @@ def main():
              'serves_properties': sorted(i for i in CHECKS if CHECKS[i][1] == 'E1')},
             {'name': 'E2', 'path': 'mc/kit.h', 'kind_free_text': 'explicit-state search over operation histories replayed on fresh objects, canonical state keys',
              'serves_properties': sorted(i for i in CHECKS if CHECKS[i][1] == 'E2')},
-            {'name': 'E3', 'path': 'mc/coopsched.h', 'kind_free_text': 'preemption-bounded cooperative scheduler over hooked yield points and interposed pthread_create/join + free-running TSan pass',
+            {'name': 'E3', 'path': 'mc/coopsched.h', 'kind_free_text': 'preemption-bounded cooperative scheduler over hooked yield points, interposed pthread_create/join/mutex and hooked std::atomic (tool and library) + free-running TSan pass',
              'serves_properties': sorted(i for i in CHECKS if CHECKS[i][1] == 'E3')},
             {'name': 'E4', 'path': 'checks/C12.cc', 'kind_free_text': 'document-fault enumerator: every single byte/token/tree deviation of base documents loaded in a forked sanitizer-build child',
              'serves_properties': sorted(i for i in CHECKS if CHECKS[i][1] == 'E4')},
